@@ -16,8 +16,15 @@ from ..par import pmap
 from ..tlc import MachineryError, make_cfg, run_tlc
 
 
+# the model's bits are tokens; the concretisation chooses which real bits they are: adjacent ones, or bits so far apart that
+# float arithmetic on the values is inexact (the bit-set semantics of the model is the same under any injective choice)
+DENSE = {1: 1, 2: 2, 4: 4}
+SPREAD = {1: 1, 2: 1 << 31, 4: 1 << 60}
+_BITS = dict(DENSE)
+
+
 def bits_to_int(bs) -> int:
-    return sum(bs)
+    return sum(_BITS[b] for b in bs)
 
 
 def make_flag(vals: list, alias: bool):
@@ -325,6 +332,14 @@ def _chunk(items) -> dict:
                 run_exact(case, out)
             else:
                 run_names(case, seed, out)
+                _BITS.update(SPREAD)
+                try:
+                    n0 = len(out["bad"])
+                    run_names(case, seed, out)
+                    for b in out["bad"][n0:]:
+                        b["sig"]["bits"] = "spread"
+                finally:
+                    _BITS.update(DENSE)
         except Exception:  # noqa: BLE001
             out["machinery"].append(f"harness error on {json.dumps(case)[:200]}: {traceback.format_exc()[-700:]}")
     best: dict = {}
